@@ -111,6 +111,19 @@ def run():
     if not m3 or "let skip_exact_match = is_single_word_search && is_single_style_search;" not in cs:
         raise RuntimeError("translate/linetables: skip_exact_match of find_enhanced_matches not found")
     skip_uses_tokens = "parse_to_tokens(search)" in m3.group(1)
+    #  * where does generate_hunks take the coercion context of a match: at the match's own column, or at the FIRST place
+    #    its text occurs in the line (`line_string.find(&content)`)?
+    sc = re.sub(r"//[^\n]*", "", open(os.path.join(repo, "renamify-core/src/scanner.rs")).read())
+    i0 = sc.find("options.coerce_separators == CoercionMode::Auto")
+    i1 = sc.find("extract_immediate_context(&line_string", i0)
+    if i0 < 0 or i1 < 0:
+        raise RuntimeError("translate/linetables: the coercion block of generate_hunks not found")
+    seg = sc[i0:i1]
+    if "line_string.find(&content)" not in seg:
+        raise RuntimeError("translate/linetables: generate_hunks no longer locates the match text in the decoded line")
+    at_column = bool(re.search(r"\.get\(\s*\.\.\s*m\.column\s*\)", seg)) and "starts_with(&content)" in seg and ".or_else(" in seg
+    if ("m.column" in seg) != at_column:
+        raise RuntimeError("translate/linetables: generate_hunks locates the coercion context in a way the model has no variant for")
 
     def arm(s):
         case, sep = table[s]
@@ -133,6 +146,9 @@ def run():
             f"def excludeAllYieldsEmpty : Bool := {'true' if exclude_all_empty else 'false'}",
             "/-- compound_scanner.rs: the `single word search` test also requires the typed term to tokenize to one word -/",
             f"def skipExactUsesTokens : Bool := {'true' if skip_uses_tokens else 'false'}",
+            "/-- scanner.rs::generate_hunks takes the coercion context of an exact match at the match's own column (falling back to",
+            "    the first place its text occurs in the line only if the text is not there) -/",
+            f"def coercionContextAtColumn : Bool := {'true' if at_column else 'false'}",
             "", "end Gen", ""]
     path = os.path.join(common.LEAN, "RModel/Gen/LineTables.lean")
     return [("Gen/LineTables.lean", common.write_if_changed(path, "\n".join(out)))]
